@@ -42,6 +42,8 @@ fn dispatch(sim: &Sim, prop: &str, tier: Tier) -> Outcome {
     match prop {
         "C13" => crate::link_clean::run(sim, prop, tier),
         "C06" => crate::link_hostile::run_c06(sim, prop, tier),
+        "C19" => crate::link_hostile::run_c19(sim, prop, tier),
+        "C14" => crate::send::run(sim, prop, tier),
         _ => panic!("unknown property {}", prop),
     }
 }
